@@ -18,6 +18,13 @@ def tasks(ctx, quick):
             mats[0] = ["dict", [[1, 0, 0, 2], [8, 0, 0, 1]]]   # incoherent-dominated, and with Ti-like negatives below
         if i % 11 == 0:
             mats.append(["dict", [[22, 0, 0, 1]]])
+        if i % 6 == 2 and nm >= 2:
+            mats = [["named", "sample", m] for m in mats]        # different materials under one name
+        if i % 6 == 5:
+            base = gen.compound(nmin=2, nmax=2)
+            twin = [list(x) for x in base]
+            twin[0][3] = twin[0][3] * (1 + 1e-8)                 # differs beyond the printed precision
+            mats = [["dict", base], ["dict", twin]] + mats[:1]
         ws = [rng.choice([0, 0, 1, 2, 0.5, 3.25, 1e-3, 10]) for _ in mats]
         if i % 13 == 1:
             ws = [0 for _ in mats]
